@@ -44,6 +44,7 @@ fn gen_opts(prop: &str, rng: &mut Rng, thorough: bool) -> GenOpts {
 /// Optionally make the manifest a generated file whose generator reproduces
 /// the same text (so phase 1 settles steps that phase 2 reuses).
 fn add_regen(p: &mut Project, rng: &mut Rng) {
+    p.quiet_generator = rng.chance(1, 3);
     let mut ins = vec!["gen.in".to_string()];
     p.sources.push("gen.in".into());
     // share an input with user steps sometimes
@@ -182,6 +183,9 @@ fn one_case(ctx: &Ctx, dir: &std::path::Path, case: u64, seed: u64, rep: &mut Re
             }
             world.next_gens.push(np);
         }
+    }
+    if matches!(prop, "C18" | "C17") && rng.chance(1, 2) {
+        world.ropts.via_vars = true;
     }
     world.init_sources(&mut rng);
     world.write_manifest();
@@ -370,7 +374,11 @@ fn one_case(ctx: &Ctx, dir: &std::path::Path, case: u64, seed: u64, rep: &mut Re
 
     // C05 / C06 follow-up: a fault-free invocation afterwards must run exactly what the model predicts
     if matches!(prop, "C05" | "C06" | "C19") && !ordering_cyclic && cfg.undeclared_pool.is_none() {
-        let fu = Inv { targets: inv.targets.clone(), j: 64, k: None, policy: Policy::Random, seed: rng.next(), ..Default::default() };
+        let mut fu = Inv { targets: inv.targets.clone(), j: 64, k: None, policy: Policy::Random, seed: rng.next(), ..Default::default() };
+        if prop == "C19" && rng.chance(1, 3) {
+            // `-t restat`: no command runs, so the reported task count must be zero
+            fu.adopt = true;
+        }
         let pred2 = predict_inv(&world, &fu);
         let (w, out2) = run_inv(world, &fu);
         world = w;
